@@ -14,6 +14,9 @@ func init() {
 }
 
 func runC18(e *Engine, r *Report) {
+	// borrowed mechanisms (session 6, round 8): votes of non-members are dropped (C03); a replica changes kind only by promotion (C07)
+	borrow(e, r, "C03", "TBL-response-types")
+	borrow(e, r, "C07", "TBL-cc-predicate")
 	tbl, err := e.RaftHandlerTable()
 	if err != nil {
 		r.undecided("TBL", "raft.handlers", err.Error())
